@@ -9,6 +9,9 @@ import (
 	"encoding/json"
 	"fmt"
 	"math"
+	"reflect"
+	"sort"
+	"strings"
 
 	"github.com/go-openapi/spec"
 )
@@ -173,7 +176,7 @@ func init() {
 			if err := json.Unmarshal(line, &c); err != nil {
 				return err
 			}
-			progs := builderProgs()
+			progs := append(builderProgs(), allFieldsProgs()...)
 			if c.Prog >= len(progs) {
 				emit(&builderObs{Prog: c.Prog, Skip: true})
 				return nil
@@ -239,4 +242,188 @@ func runBuilder(i int, p builderProg) (o *builderObs) {
 		o.OK, o.Why = false, "the text parses to something else than the model holds: "+ascii(d)
 	}
 	return o
+}
+
+// ---- generic program: every exported field of a model type set to a non-zero value ----
+
+var refType = reflect.TypeOf(spec.Ref{})
+
+// populate sets every settable exported field below v to a non-zero value.
+func populate(v reflect.Value, depth int) {
+	switch v.Kind() {
+	case reflect.Ptr:
+		if depth <= 0 && v.Type().Elem().Kind() == reflect.Struct {
+			return
+		}
+		switch v.Type().Elem().Name() {
+		case "SchemaOrArray", "SchemaOrBool":
+			// unions: the single-schema alternative, or nothing when the depth is used up
+			if depth <= 1 {
+				return
+			}
+			n := reflect.New(v.Type().Elem())
+			populate(n.Elem().FieldByName("Schema"), depth-1)
+			if f := n.Elem().FieldByName("Allows"); f.IsValid() {
+				f.SetBool(true)
+			}
+			v.Set(n)
+			return
+		}
+		n := reflect.New(v.Type().Elem())
+		populate(n.Elem(), depth-1)
+		v.Set(n)
+	case reflect.Struct:
+		if v.Type().Name() == "SchemaOrStringArray" {
+			v.FieldByName("Property").Set(reflect.ValueOf([]string{"p"}))
+			return
+		}
+		if v.Type() == refType {
+			v.Set(reflect.ValueOf(spec.MustCreateRef("#/definitions/X")))
+			return
+		}
+		for i := 0; i < v.NumField(); i++ {
+			f := v.Type().Field(i)
+			if f.PkgPath != "" { // unexported
+				continue
+			}
+			populate(v.Field(i), depth)
+		}
+	case reflect.String:
+		v.SetString("s")
+	case reflect.Bool:
+		v.SetBool(true)
+	case reflect.Int, reflect.Int64, reflect.Int32:
+		v.SetInt(1)
+	case reflect.Float64:
+		v.SetFloat(1)
+	case reflect.Interface:
+		v.Set(reflect.ValueOf("v"))
+	case reflect.Slice:
+		if depth <= 0 && v.Type().Elem().Kind() == reflect.Struct {
+			return
+		}
+		s := reflect.MakeSlice(v.Type(), 1, 1)
+		populate(s.Index(0), depth-1)
+		v.Set(s)
+	case reflect.Map:
+		if depth <= 0 && v.Type().Elem().Kind() == reflect.Struct {
+			return
+		}
+		m := reflect.MakeMap(v.Type())
+		e := reflect.New(v.Type().Elem()).Elem()
+		populate(e, depth-1)
+		key := "k"
+		if v.Type().Key().Kind() == reflect.Int {
+			m.SetMapIndex(reflect.ValueOf(200), e)
+		} else {
+			m.SetMapIndex(reflect.ValueOf(key).Convert(v.Type().Key()), e)
+		}
+		v.Set(m)
+	}
+}
+
+// jsonNames lists the member names the struct tags of t (embedded structs included) announce.
+func jsonNames(t reflect.Type, out map[string]bool) {
+	for i := 0; i < t.NumField(); i++ {
+		f := t.Field(i)
+		if f.PkgPath != "" && !f.Anonymous {
+			continue
+		}
+		tag := strings.Split(f.Tag.Get("json"), ",")[0]
+		if f.Anonymous && tag == "" {
+			ft := f.Type
+			if ft.Kind() == reflect.Ptr {
+				ft = ft.Elem()
+			}
+			if ft.Kind() == reflect.Struct && ft != refType {
+				jsonNames(ft, out)
+			}
+			continue
+		}
+		if tag != "" && tag != "-" {
+			out[tag] = true
+		}
+	}
+}
+
+func allFieldsProg(name string, mk func() interface{}, fresh func() interface{}, fix func(v interface{}), skip ...string) builderProg {
+	var must []string
+	names := map[string]bool{}
+	jsonNames(reflect.TypeOf(mk()).Elem(), names)
+	for _, s := range skip {
+		delete(names, s)
+	}
+	for n := range names {
+		must = append(must, n)
+	}
+	sort.Strings(must)
+	return builderProg{"every field of " + name + " set", func() (interface{}, func() interface{}) {
+		v := mk()
+		populate(reflect.ValueOf(v).Elem(), 2)
+		if fix != nil {
+			fix(v)
+		}
+		return v, fresh
+	}, must}
+}
+
+// fixExt gives the extension maps a legal key (populate uses "k").
+func fixExt(ve *spec.VendorExtensible) {
+	ve.Extensions = spec.Extensions{"x-k": "v"}
+}
+
+func allFieldsProgs() []builderProg {
+	return []builderProg{
+		allFieldsProg("SecurityScheme(basic)", func() interface{} { return &spec.SecurityScheme{} }, func() interface{} { return &spec.SecurityScheme{} },
+			func(v interface{}) { s := v.(*spec.SecurityScheme); s.Type = "basic"; fixExt(&s.VendorExtensible) }),
+		allFieldsProg("SecurityScheme(oauth2 password)", func() interface{} { return &spec.SecurityScheme{} }, func() interface{} { return &spec.SecurityScheme{} },
+			func(v interface{}) {
+				s := v.(*spec.SecurityScheme)
+				s.Type, s.Flow = "oauth2", "password"
+				fixExt(&s.VendorExtensible)
+			}),
+		allFieldsProg("SecurityScheme(oauth2 implicit)", func() interface{} { return &spec.SecurityScheme{} }, func() interface{} { return &spec.SecurityScheme{} },
+			func(v interface{}) {
+				s := v.(*spec.SecurityScheme)
+				s.Type, s.Flow = "oauth2", "implicit"
+				fixExt(&s.VendorExtensible)
+			}),
+		allFieldsProg("Response", func() interface{} { return &spec.Response{} }, func() interface{} { return &spec.Response{} },
+			func(v interface{}) { r := v.(*spec.Response); r.Ref = spec.Ref{}; fixExt(&r.VendorExtensible) }, "$ref"),
+		allFieldsProg("Header", func() interface{} { return &spec.Header{} }, func() interface{} { return &spec.Header{} },
+			func(v interface{}) { h := v.(*spec.Header); fixExt(&h.VendorExtensible) }),
+		allFieldsProg("Items", func() interface{} { return &spec.Items{} }, func() interface{} { return &spec.Items{} },
+			func(v interface{}) { i := v.(*spec.Items); i.Ref = spec.Ref{}; fixExt(&i.VendorExtensible) }, "$ref"),
+		allFieldsProg("Parameter", func() interface{} { return &spec.Parameter{} }, func() interface{} { return &spec.Parameter{} },
+			func(v interface{}) { p := v.(*spec.Parameter); p.Ref = spec.Ref{}; fixExt(&p.VendorExtensible) }, "$ref"),
+		allFieldsProg("Operation", func() interface{} { return &spec.Operation{} }, func() interface{} { return &spec.Operation{} },
+			func(v interface{}) { o := v.(*spec.Operation); fixExt(&o.VendorExtensible) }),
+		allFieldsProg("PathItem", func() interface{} { return &spec.PathItem{} }, func() interface{} { return &spec.PathItem{} },
+			func(v interface{}) { p := v.(*spec.PathItem); p.Ref = spec.Ref{}; fixExt(&p.VendorExtensible) }, "$ref"),
+		allFieldsProg("Info", func() interface{} { return &spec.Info{} }, func() interface{} { return &spec.Info{} },
+			func(v interface{}) { i := v.(*spec.Info); fixExt(&i.VendorExtensible) }),
+		allFieldsProg("Tag", func() interface{} { return &spec.Tag{} }, func() interface{} { return &spec.Tag{} },
+			func(v interface{}) { t := v.(*spec.Tag); fixExt(&t.VendorExtensible) }),
+		allFieldsProg("Swagger", func() interface{} { return &spec.Swagger{} }, func() interface{} { return &spec.Swagger{} },
+			func(v interface{}) { s := v.(*spec.Swagger); fixExt(&s.VendorExtensible) }),
+		allFieldsProg("Schema", func() interface{} { return &spec.Schema{} }, func() interface{} { return &spec.Schema{} },
+			func(v interface{}) {
+				s := v.(*spec.Schema)
+				s.Ref = spec.Ref{}
+				s.ExtraProps = map[string]interface{}{"extra": "v"}
+				fixExt(&s.VendorExtensible)
+			}, "$ref"),
+		allFieldsProg("XMLObject", func() interface{} { return &spec.XMLObject{} }, func() interface{} { return &spec.XMLObject{} }, nil),
+		allFieldsProg("ExternalDocumentation", func() interface{} { return &spec.ExternalDocumentation{} }, func() interface{} { return &spec.ExternalDocumentation{} }, nil),
+		allFieldsProg("ContactInfo", func() interface{} { return &spec.ContactInfo{} }, func() interface{} { return &spec.ContactInfo{} },
+			func(v interface{}) { c := v.(*spec.ContactInfo); fixExt(&c.VendorExtensible) }),
+		allFieldsProg("License", func() interface{} { return &spec.License{} }, func() interface{} { return &spec.License{} },
+			func(v interface{}) { l := v.(*spec.License); fixExt(&l.VendorExtensible) }),
+		// a Paths value built in Go whose map has a key that is no path and equals an extension name
+		{"paths built with a key that equals an extension name", func() (interface{}, func() interface{}) {
+			p := &spec.Paths{Paths: map[string]spec.PathItem{"/a": {}, "x-internal": {}}}
+			p.AddExtension("x-internal", true)
+			return p, func() interface{} { return &spec.Paths{} }
+		}, nil},
+	}
 }
